@@ -117,6 +117,8 @@ def catalogue(info):
         ('delete_attribute', [kdrv.delete_attribute_v1('1', 'Name', 0)]),
         ('batch2', [kdrv.get_attribute_list('1'), kdrv.get('5')]),
         ('batch3', [kdrv.create(), kdrv.get(), kdrv.destroy()]),
+        ('batch_create_activate', [kdrv.create(), kdrv.activate()]),
+        ('batch_register_get_attrs', [kdrv.register(kdrv.OT.SECRET_DATA), kdrv.get_attribute_list(), kdrv.get()]),
         ('rekey', [(E.Operation.REKEY, payloads.RekeyRequestPayload(unique_identifier='1'))]),
         ('check', [(E.Operation.CHECK, payloads.CheckRequestPayload(unique_identifier='1'))]),
         ('rekey_key_pair', [(E.Operation.REKEY_KEY_PAIR, payloads.RekeyKeyPairRequestPayload())]),
@@ -244,6 +246,69 @@ def primitive_overrun(buf, values=True):
     if len(buf) < 8 or buf[3] != 1:
         return None
     return go(8, len(buf))
+
+
+def message_level(buf):
+    """Independent of PyKMIP, message level (KMIP 1.x section 6/7.1): a Request Message is a Request Header followed by
+    exactly Batch Count batch items.  Reported (-> the request cannot be decoded):
+      header       the first item of the message is not a Request Header structure, or the header lacks its Protocol
+                   Version (first field) or its Batch Count
+      batch-count  the header promises MORE batch items than directly follow it (frame cut behind an item, count
+                   corrupted upwards, a later item re-tagged)
+    Not reported: more items than promised, or anything else behind the promised items - PyKMIP stops reading after
+    Batch Count items, like it ignores bytes behind the message (lenient, nothing promised is missing)."""
+    if len(buf) < 8 or buf[:4] != b'\x42\x00\x78\x01':
+        return None                                   # not a request message at all: any reader refuses it
+    end = min(len(buf), 8 + struct.unpack('>I', buf[4:8])[0])
+    kids, pos = [], 8
+    while end - pos >= 8:
+        ln = struct.unpack('>I', buf[pos + 4:pos + 8])[0]
+        kids.append((pos, buf[pos:pos + 3], buf[pos + 3], ln))
+        pos += 8 + ln + (-ln) % 8
+    if not kids or kids[0][1] != b'\x42\x00\x77' or kids[0][2] != 1:
+        return ('header', 'the message does not start with a Request Header')
+    hpos, _, _, hln = kids[0]
+    hend = min(end, hpos + 8 + hln)
+    fields, pos = [], hpos + 8
+    while hend - pos >= 8:
+        ln = struct.unpack('>I', buf[pos + 4:pos + 8])[0]
+        fields.append((pos, buf[pos:pos + 3], buf[pos + 3], ln))
+        pos += 8 + ln + (-ln) % 8
+    if not fields or fields[0][1] != b'\x42\x00\x69':
+        return ('header', 'the Request Header does not start with a Protocol Version')
+    counts = [f for f in fields if f[1] == b'\x42\x00\x0d' and f[2] == 2 and f[3] == 4 and f[0] + 12 <= hend]
+    if not counts:
+        return ('header', 'the Request Header has no Batch Count')
+    count = struct.unpack('>i', buf[counts[0][0] + 8:counts[0][0] + 12])[0]
+    present = 0
+    for k in kids[1:]:
+        if k[1] == b'\x42\x00\x0f' and k[2] == 1:
+            present += 1
+        else:
+            break
+    if count > present:
+        return ('batch-count', 'Batch Count %d but only %d batch item(s) follow the header' % (count, present))
+    return None
+
+
+def message_corruptions(b):
+    """Cut a request exactly behind each of its batch items (frame length recomputed), raise / lower its Batch Count,
+    re-tag a later batch item - the message-level counterpart of the length inflations."""
+    out = []
+    kids = [it for it in walk(b) if it[4] == 1]                  # children of the message
+    items = [it for it in kids if it[1] == 0x42000F]
+    n = len(items)
+    for k in range(1, n):                                        # keep items 1..k
+        out.append(('cut-behind-item%d' % k, reframe(b[:items[k][0]])))
+    for off, tag, typ, ln, d in walk(b):
+        if tag == 0x42000D and typ == 2:
+            for new in (n + 1, n + 2, 2 ** 31 - 1, n - 1, 0):
+                if new != n and new >= 0:
+                    out.append(('count%+d' % (new - n) if new < 2 ** 31 - 1 else 'count-max', b[:off + 8] + struct.pack('>i', new) + b[off + 12:]))
+    for j in range(1, n):
+        for newtag in (0x42000D, 0x42000E, 0x420010, 0x54000F):
+            out.append(('retag-item%d' % (j + 1), b[:items[j][0]] + newtag.to_bytes(3, 'big') + b[items[j][0] + 3:]))
+    return out
 
 
 BAD_UTF8 = [b'\xff', b'\xfe', b'\x80', b'\xbf', b'\xc3', b'\xc0\xaf', b'\xed\xa0\x80', b'\xf8', b'\xe2\x82', b'\xf4\x90\x80\x80']
@@ -475,6 +540,14 @@ def oracle_connection(ctx, spec, obs, calls, meta, expect_frames=None):
         ov = primitive_overrun(f['frame'])
         if ov is not None and ov[4] != 'overrun' and not (m.get('kind') or '').split(':')[0] in STRICT_KINDS:
             ov = None
+        ml = message_level(f['frame'])
+        if ml is not None:
+            ok = (len(env['items']) == 1 and env['items'][0]['status'] == 1
+                  and env['items'][0]['reason'] == sessdrv.REASON_INVALID_MESSAGE)
+            if not ok or f['engine'] is not None or changed:
+                hit({'kind': 'undecodable-message-accepted', 'rule': ml[0]},
+                    '%s, yet the request was %s' % (ml[1], 'executed' if f['engine'] is not None else 'not answered with INVALID_MESSAGE'),
+                    dict(fx, answer=env, store_changed=changed, engine_entered=f['engine'] is not None))
         if ov is not None:
             ok = (len(env['items']) == 1 and env['items'][0]['status'] == 1
                   and env['items'][0]['reason'] == sessdrv.REASON_INVALID_MESSAGE)
@@ -542,7 +615,8 @@ def run(ctx):
         'tag and type flips, truncation at item boundaries, batch count != items, unsupported versions, unknown enum values, '
         'byte flips, duplicated/dropped items, deep nesting, raw random; every INNER length field of Register/Create/DeriveKey '
         'requests raised by +8/+16/to 0x7ffffff8 with outer lengths kept right; single value bytes of text strings replaced by '
-        'bytes that are not UTF-8, Booleans set to 2, padding set non-zero, structure intact) in sequences bad*-then-good, each also replayed one '
+        'bytes that are not UTF-8, Booleans set to 2, padding set non-zero, structure intact; multi-item requests cut behind each '
+        'batch item, Batch Count raised/lowered, later items re-tagged) in sequences bad*-then-good, each also replayed one '
         'frame per connection on a twin engine; (c) every composition of every stream of <= 12 bytes (quick: 8..12 bytes, 1-2 '
         'streams per length) and random chunkings (1..9000-byte chunks) of long streams incl. frames > 4096 bytes; '
         '(d) maximum response size in {absent, 0, 1, size-1, size, size+1, 2^31-1, -1} for five operations, plus sequences '
@@ -600,6 +674,12 @@ def run(ctx):
         if quick and len(corrupted) > 900:
             corrupted = rng.sample(corrupted, 900)
         ctx.count('mutation.value-rule-broken', len(corrupted))
+        # message level: cut behind a batch item, Batch Count up/down, later item re-tagged - first item changes state
+        msgy = [x for x in valid if x[0] in ('create', 'batch3', 'batch_create_activate', 'batch_register_get_attrs', 'batch2', 'register_opaque_data')
+                and x[1] in (((1, 0), (1, 2), (2, 0)) if quick else kdrv.VERSIONS)]
+        msgbad = [(kind + ':' + lab, fr) for lab, v, m, b in msgy for kind, fr in message_corruptions(b)]
+        ctx.count('mutation.message-level', len(msgbad))
+        corrupted = corrupted + msgbad
         inflated = inflated + corrupted
         small = [('maxsmall:%s' % lab, with_max_size(info, lab, v, m), m)
                  for lab in ('query', 'get', 'locate') for v in ((1, 0), (1, 4), (2, 0)) for m in (1, 64, -1)]
